@@ -930,10 +930,19 @@ def register(cat):
     def gen_khatrirao(c, r):
         kind = c.g.choice(["columns", "not_matrix"])
         if kind == "columns":
-            return {"operands": [c.fresh(np.asfortranarray(rand_array(c.g, (2, 2)))), c.fresh(np.asfortranarray(rand_array(c.g, (3, 3))))]}
-        return {"operands": [c.fresh(np.asfortranarray(rand_array(c.g, (2, 2)))), c.fresh(rand_array(c.g, (2, 2, 2)))]}
+            # two or three matrices, column counts 1 .. 3 with at least two different ones, in any position; the
+            # product taken forwards or in reverse
+            n = c.g.randint(2, 3)
+            for _ in range(20):
+                cols = [c.g.randint(1, 3) for _ in range(n)]
+                if len(set(cols)) > 1:
+                    break
+            else:
+                cols = [1, 2] + [2] * (n - 2)
+            return {"operands": [c.fresh(np.asfortranarray(rand_array(c.g, (c.g.randint(1, 3), k)))) for k in cols], "reverse": c.g.random() < 0.4}
+        return {"operands": [c.fresh(np.asfortranarray(rand_array(c.g, (2, 2)))), c.fresh(rand_array(c.g, (2, 2, 2)))], "reverse": False}
 
-    bad("khatrirao_inconsistent", None, gen_khatrirao, lambda eng, ops, st: ttb.khatrirao(*ops), lambda ops, st: any(o.ndim != 2 for o in ops) or len({o.shape[1] for o in ops}) > 1)
+    bad("khatrirao_inconsistent", None, gen_khatrirao, lambda eng, ops, st: ttb.khatrirao(*ops, reverse=bool(st.get("reverse"))), lambda ops, st: any(o.ndim != 2 for o in ops) or len({o.shape[1] for o in ops}) > 1)
 
     def gen_sptenrand(c, r):
         return {"operands": [], "shape": list(c.g.choice(c.heap_families())), "kind": c.g.choice(["both", "neither", "density_zero", "density_big"])}
